@@ -10,6 +10,9 @@ A history is JSON: {'cfg': {'ordered': bool, 'ttl_q': int|None, 'base': int, 'be
   ['C', now_q]                  clock := now, cleanup()
   ['P', mmsi] / ['P', 'mmsi']   pop_track(mmsi) (int or numeric string)
   ['L', n]   ['G', mmsi]        queries n_latest_tracks(n) / get_track(mmsi)
+  ['I', now_q, msg, ts_q|None]  clock := now, tracker.insert_or_update(mmsi, msg_to_track(msg.decode(), ts))   (the public method
+                                below update(): no ordered-stream check, no cleanup(); ordered mode: the generators only hand
+                                it timestamps that are not older than any track -- the caller's obligation on that route)
   ['T', ttl_q|None]             tracker.ttl_in_seconds = ttl   (a new TTL, in the history's time unit; None = never expire)
   ['M']                         tracker.stream_is_ordered = False   (only this direction, see Props/C14.v)
 All times are integers in quarter seconds relative to cfg.base (seconds): binary64 arithmetic on them is exact.
@@ -331,6 +334,10 @@ def run_impl(h):
                 elif k == 'G':
                     r = tracker.get_track(op[1])
                     rec['q'] = None if r is None else snap(r)
+                elif k == 'I':
+                    clock.t = float(base) + op[1] / q
+                    dec = e.build(op[2])[0].decode()
+                    tracker.insert_or_update(int(dec.mmsi), e.pt.msg_to_track(dec, None if op[3] is None else float(base) + op[3] / q))
                 elif k == 'T':
                     tracker.ttl_in_seconds = seconds(op[1])
                 elif k == 'M':
@@ -383,6 +390,9 @@ def model_line(h, impl=None):
         if k == 'U':
             _, mmsi, view, _ = e.build(op[2])
             items.append(f"U,{op[1]},{mmsi},{'N' if op[3] is None else op[3]},{_attrs_txt(view)}{osuf}")
+        elif k == 'I':
+            _, mmsi, view, _ = e.build(op[2])
+            items.append(f"I,{op[1]},{mmsi},{'N' if op[3] is None else op[3]},{_attrs_txt(view)}")
         elif k == 'C':
             items.append(f'C,{op[1]}{osuf}')
         elif k in ('P', 'G'):
@@ -476,7 +486,7 @@ def universe(h):
     e = env()
     ms = []
     for op in h['ops']:
-        if op[0] == 'U':
+        if op[0] in ('U', 'I'):
             m = e.build(op[2])[1]
         elif op[0] in ('P', 'G'):
             m = int(op[1])
@@ -531,6 +541,9 @@ def oracle_lines(h, impl):
         if k == 'U':
             _, mmsi, view, _ = e.build(op[2])
             sops.append(f"U,{op[1]},{mmsi},{'N' if op[3] is None else op[3]},{_attrs_txt(view)},{_plus(dels)}")
+        elif k == 'I':
+            _, mmsi, view, _ = e.build(op[2])
+            sops.append(f"I,{op[1]},{mmsi},{'N' if op[3] is None else op[3]},{_attrs_txt(view)}")
         elif k == 'C':
             sops.append(f'C,{op[1]},{_plus(dels)}')
         elif k == 'P':
@@ -561,13 +574,13 @@ def oracle_lines(h, impl):
             rp = ','.join(f'{tr[0]}/{tr[1]}' for tr in a['q']) or '_'
             lines.append(f'trk_topn {op[1]} {allp} {rp}')
             index.append(('topn', i))
-        if k in ('U', 'C', 'P'):
+        if k in ('U', 'C', 'P', 'I'):
             trace.extend(f'{ev}~{tr[0]}' for ev, tr in a['events'])
             before = {tr[0] for tr in prev}
             after = {tr[0] for tr in a['tracks']}
-            target = e.build(op[2])[1] if (k == 'U' and accepted(a)) else None
+            target = e.build(op[2])[1] if (k in ('U', 'I') and accepted(a)) else None
             touched = {tr[0] for _, tr in a['events']} | (before ^ after)
-            last = not any(o[0] in ('U', 'C', 'P') for o in h['ops'][i + 1:])
+            last = not any(o[0] in ('U', 'C', 'P', 'I') for o in h['ops'][i + 1:])
             for m in ms:
                 if big and m not in touched and m != target:
                     # sp_expected_events target m b b = [] for m <> target: nothing is owed to a vessel whose state did
@@ -621,10 +634,11 @@ def evaluate(h, impl, lines, index, replies):
         keys = [tr[0] for tr in a['tracks']]
         md = cfgs[i][2]
         cur_ttl = cfgs[i][0]
-        sig = {'entry': {'U': 'update', 'C': 'cleanup', 'P': 'pop_track', 'T': 'ttl_in_seconds', 'M': 'stream_is_ordered'}.get(k, 'register_callback'),
+        sig = {'entry': {'U': 'update', 'C': 'cleanup', 'P': 'pop_track', 'T': 'ttl_in_seconds', 'M': 'stream_is_ordered',
+                         'I': 'insert_or_update'}.get(k, 'register_callback'),
                'mode': md}
-        refused = k == 'U' and not accepted(a)      # update() raised, and not because a subscriber raised
-        if k == 'U':
+        refused = k in ('U', 'I') and not accepted(a)      # update() raised, and not because a subscriber raised
+        if k in ('U', 'I'):
             if rejected and not refused:
                 bad.append(('C12', i, dict(sig, component='acceptance', kind='wrongly-accepted'),
                             f'step {i}: update older than the track (or out of order) was accepted'))
@@ -691,7 +705,7 @@ def evaluate(h, impl, lines, index, replies):
                         bad.append(('C13', i, dict(sig, component='expiry', kind='wrongly-expired'),
                                     f'step {i}: track {tr[0]} (age {now - tr[1]}/4 s < ttl {T}/4 s) vanished'))
         # ---- C15
-        if k in ('U', 'C', 'P'):
+        if k in ('U', 'C', 'P', 'I'):
             got = per_mmsi(a['events'])
             for m in ms:
                 exp = ans.get(('expected', i, m), '_')       # not asked: nothing owed (oracle_lines, many vessels)
@@ -792,6 +806,10 @@ def features(h, impl):
         if k == 'U' and cfgs[i][2] == 'switched-to-unordered' and accepted(a) and op[3] is not None \
                 and any(isinstance(tr[1], int) and op[3] < tr[1] for tr in prev):
             f.add('cfg:older-timestamp-accepted-after-switch')
+        if k == 'I':
+            f.add('public:insert_or_update')
+            if cur_ordered:
+                f.add('public:insert_or_update-ordered')
         if k == 'U':
             f.add('update')
             f.add('class:' + env().build(op[2])[3])
@@ -851,7 +869,7 @@ def features(h, impl):
             state[pr] = 're' if state.get(pr) in ('off', 're') else 'on'
         elif op[0] == 'D' and state.get((op[1], op[2])) in ('on', 're'):
             state[(op[1], op[2])] = 'off'
-        elif op[0] in ('U', 'C', 'P') and any(v == 're' and any(ev == pr[0] for ev, _ in a['events']) for pr, v in state.items()):
+        elif op[0] in ('U', 'C', 'P', 'I') and any(v == 're' and any(ev == pr[0] for ev, _ in a['events']) for pr, v in state.items()):
             f.add('broker:event-after-re-registration')
     return f
 
@@ -878,7 +896,7 @@ def cb_features(h, model):
             subs.append((op[1], op[2]))
         elif k == 'D' and (op[1], op[2]) in subs:
             subs.remove((op[1], op[2]))
-        if k not in ('U', 'C', 'P'):
+        if k not in ('U', 'C', 'P', 'I'):
             continue
         raised = [(cb, ev, tr[0], behaviour(cb, ev, tr[0])) for cb, ev, tr in b['deliv'] if behaviour(cb, ev, tr[0])]
         escaped = b['exn'] is not None and bool(b['calls'])        # Props/C15.v C15_exception_origin
@@ -1032,6 +1050,10 @@ def short_op(op):
         e = env()
         _, mmsi, _, cls = e.build(op[2])
         return f"t={op[1]}:update({cls}#{mmsi}{'' if op[3] is None else ', ts=' + str(op[3])})"
+    if op[0] == 'I':
+        e = env()
+        _, mmsi, _, cls = e.build(op[2])
+        return f"t={op[1]}:insert_or_update({cls}#{mmsi}{'' if op[3] is None else ', ts=' + str(op[3])})"
     if op[0] == 'C':
         return f't={op[1]}:cleanup()'
     if op[0] == 'P':
@@ -1100,6 +1122,7 @@ def gen_history(rng, kind='mixed', with_queries=False, n_ops=None, raising=False
     n_ops = n_ops or rng.choice([4, 8, 12, 20, 30])
     T = ttl_q if ttl_q is not None else 8
     ordered0, ttl0 = ordered, ttl_q
+    hi = now                       # the latest timestamp this generator has handed to the tracker so far
     rereg = {}                     # kind 'broker': pairs (ev, cb 10/11) that are registered, removed, registered again ...
     if kind == 'broker' and rng.random() < 0.5:
         pair = (rng.choice('cud'), rng.choice([10, 11]))     # right away: registered, removed, registered again
@@ -1116,6 +1139,7 @@ def gen_history(rng, kind='mixed', with_queries=False, n_ops=None, raising=False
                     ts = max(lus.values()) - rng.choice([1, 2, 4]) if fresh else lus[m]
                     ops.append(['U', now, rng.choice(pools[m]), ts])
                     lus[m] = max(ts, lus.get(m, ts))
+                    hi = max(hi, ts)
             else:
                 new = rng.choice([None, 0, 2, 4, 4, 6, 8, 12, 20, 40, max(T - 4, 1), T + 4])
                 ops.append(['T', new])
@@ -1156,8 +1180,16 @@ def gen_history(rng, kind='mixed', with_queries=False, n_ops=None, raising=False
                 ts = now + rng.choice([1, T - 1, T, T + 1, 2 * T])     # stamped ahead of the clock (a feeder whose clock runs fast)
             else:
                 ts = lus.get(m, now) + rng.choice([-4, -1, 1, 3])
-            ops.append(['U', now, msg, ts])
+            if config and rng.random() < 0.3:
+                # through the public insert_or_update(): no ordered-stream check there, so in ordered mode the caller (this
+                # generator) hands it only timestamps that are not older than anything it has ever stamped
+                if ordered and (now if ts is None else ts) < hi:
+                    ts = hi + rng.choice([0, 0, 1, 2])
+                ops.append(['I', now, msg, ts])
+            else:
+                ops.append(['U', now, msg, ts])
             t_eff = now if ts is None else ts
+            hi = max(hi, t_eff)
             if m not in lus or t_eff >= lus[m]:
                 lus[m] = t_eff
         elif r < 0.74:
@@ -1297,6 +1329,25 @@ def directed_config(rng):
     return hs
 
 
+def directed_public(rng):
+    """The public method below update(): insert_or_update(mmsi, msg_to_track(decoded, ts)).  Unordered: any timestamps
+    (older than its own track: rejected; older than others: accepted), no expiry until the next cleanup()/update().
+    Ordered: non-decreasing timestamps only (the route has no check); an update through it moves the track to the end."""
+    hs = []
+    A, B, C = MMSIS[0], MMSIS[1], MMSIS[2]
+    for ordered in (False, True):
+        ra, rb, rc = real_message(rng, A, 1), real_message(rng, B, 5), real_message(rng, C, 18)
+        mk = lambda ops, ttl: {'cfg': {'ordered': ordered, 'ttl_q': ttl, 'base': 0}, 'ops': [list(o) for o in MON_OPS] + ops}
+        hs.append(mk([['I', 0, ra, 1], ['I', 0, rb, 2], ['I', 0, ra, 3], ['I', 0, rc, 3], ['I', 0, rb, 4], ['I', 0, ra, 4],
+                      ['U', 0, rc, 5], ['I', 0, rb, 5], ['P', A], ['I', 0, ra, 6], ['I', 0, rc, 4]], None))
+        hs.append(mk([['I', 0, ra, 0], ['I', 4, rb, 4], ['C', 11], ['I', 12, rc, 12], ['G', A], ['C', 12], ['I', 16, rb, None],
+                      ['U', 30, ra, None], ['I', 30, rc, 29 if not ordered else 30]], 12))
+        if not ordered:
+            hs.append(mk([['I', 0, ra, 8], ['I', 0, rb, 0], ['I', 0, rc, 4], ['I', 0, ra, 7], ['I', 0, ra, 8], ['I', 0, rb, 9],
+                          ['C', 20]], 12))
+    return hs
+
+
 def directed_extreme_mmsi(rng):
     """The vessel with MMSI 0 (a falsy key) and the one with the largest MMSI: created, updated, expired next to an
     ordinary vessel, popped by int and by numeric string."""
@@ -1427,7 +1478,7 @@ def run_common(ctx, prop):
     hs = directed_histories(rng)
     if raising:
         hs += directed_raising(rng)
-    hs += directed_reregistration(rng) + directed_extreme_mmsi(rng)
+    hs += directed_reregistration(rng) + directed_extreme_mmsi(rng) + directed_public(rng)
     if with_q:
         hs = [add_queries(h) for h in hs]
     # the configuration changes during the history (new TTL, ordered -> unordered); very many tracks due at once
@@ -1596,7 +1647,11 @@ _COMMON_RULE = ('histories of AISTracker operations under a controlled clock (ti
                 'timestamps) -- hand-aimed, PRNG-drawn and every history up to length 3 (quick) / 4 (thorough) over the alphabet '
                 'extended by ttl := 1 s / 3 s / None and the switch; 70-150 vessels reaching the TTL in one cleanup()/update() '
                 '(C13; all four in the thorough tier); a subscriber registered, removed and registered again (same pair) followed '
-                'by events; a case is one history; distinct = distinct (configuration incl. behaviours, operation list)')
+                'by events; the public insert_or_update(mmsi, msg_to_track(...)) as a history operation (unordered: any timestamp; '
+                'ordered: never older than a track); vessels with MMSI 0 and 999999999; timestamps ahead of the clock; sentences '
+                'that carry an NMEA tag block (through NMEASentenceFactory) fed without a timestamp; sentinel values (heading 511, '
+                'lat 91, lon 181, course 360, speed 102.3) after real values; '
+                'a case is one history; distinct = distinct (configuration incl. behaviours, operation list)')
 RULE = {
     'C12': _COMMON_RULE + '; after every operation tracks / get_track are compared with the log specification sp_track_of',
     'C13': _COMMON_RULE + '; after every update()/cleanup() the remaining and the expired tracks are judged by sp_ttl_okb',
@@ -1615,7 +1670,11 @@ ASSUMPTIONS = ['callbacks do not call back into the tracker (they may raise: C13
                'the clock is read at most at one value during one operation',
                'stream_is_ordered is only ever switched from True to False (the other direction asserts an order nobody enforced and '
                'is outside C14); ttl_in_seconds may be assigned any value at any time',
-               'the deliveries oracle of C15 stops judging a history at the first double registration of one (event, callback) pair']
+               'the deliveries oracle of C15 stops judging a history at the first double registration of one (event, callback) pair',
+               'insert_or_update() is called on an ORDERED tracker only with timestamps that are not older than any track (the method '
+               'has no ordered-stream check: the caller\'s obligation; Props/C12.v trk_run_ok); insert_track() / update_track() are not '
+               'called directly (insert_track() does not maintain oldest_timestamp and fires CREATED for a tracked MMSI; they are the '
+               'two branches of insert_or_update())']
 TRUSTED_EXTRA = ['Prim/IntDict.v: dict insertion order, assignment to an existing key keeps its position, popitem() is LIFO; '
                  'sorted() is stable (modelled by insertion sort); iterating a set of ints visits exactly its elements, in '
                  "an order the model takes as a parameter (the check reads it off the implementation's DELETED deliveries; "
@@ -1626,16 +1685,16 @@ TRUSTED_EXTRA = ['Prim/IntDict.v: dict insertion order, assignment to an existin
                  'has the attribute (attr.fields) and its value as an opaque token']
 NEEDED = {
     'C12': {'merge': 0.05, 'rejected': 0.05, 'expiry': 0.05, 'pop:hit': 0.05, 'ts-equals-own-track': 0.05,
-            'cfg:ttl-assigned': 0.03, 'cfg:switched-to-unordered': 0.02},
+            'cfg:ttl-assigned': 0.03, 'cfg:switched-to-unordered': 0.02, 'public:insert_or_update': 0.03},
     'C13': {'expiry': 0.05, 'stale-and-fresh-mixed': 0.05, 'age==ttl': 0.05, 'age==ttl-1': 0.02, 'age==ttl+1': 0.02,
-            'cfg:ttl-shortened-with-tracks': 0.03, 'expiry:more-than-64-at-once': 0.001,
+            'cfg:ttl-shortened-with-tracks': 0.03, 'expiry:more-than-64-at-once': 0.001, 'public:insert_or_update': 0.03,
             'cb:expiry-with-keyerror-subscriber': 0.05, 'cb:several-expired-one-raises': 0.02, 'cb:exception-escaped': 0.03,
             'cb:cleanup-aborted': 0.02, 'cb:pop-with-raising-subscriber': 0.02, 'cb:created-subscriber-raises': 0.02},
     'C14': {'n==0': 0.05, 'n==len': 0.05, 'n>len': 0.05, 'n<len': 0.05, 'n_latest:ties': 0.05,
-            'cfg:older-timestamp-accepted-after-switch': 0.02,
+            'cfg:older-timestamp-accepted-after-switch': 0.02, 'public:insert_or_update-ordered': 0.02,
             'cb:keyerror-swallowed': 0.05, 'cb:exception-escaped': 0.03},
     'C15': {'expiry': 0.05, 'rejected': 0.05, 'pop:hit': 0.05, 'created-and-expired-at-once': 0.02, 'broker-ops': 0.05,
-            'broker:event-after-re-registration': 0.02,
+            'broker:event-after-re-registration': 0.02, 'public:insert_or_update': 0.03,
             'cb:keyerror-swallowed': 0.05, 'cb:exception-escaped': 0.03, 'cb:subscriber-loop-truncated': 0.02,
             'cb:created-subscriber-raises': 0.02, 'cb:updated-subscriber-raises': 0.02},
 }
